@@ -59,6 +59,7 @@ func workMain(r *vlib.Run) {
 		r.Finish("replay of one recorded case")
 	}
 	matcherDifferential(r)
+	wildcardOnlySequences(r)
 	concurrentAndReload(r)
 	cleanupScratch()
 	r.Finish(rule)
@@ -158,6 +159,11 @@ func main() {
 		r.Require("served_blocked_aaaa_nullroute", 300)
 		r.Require("served_blocked_other_empty_authoritative", 300)
 		r.Require("served_passed_on_untouched", 1000)
+		r.Require("match_lists_wildcard_only", 50)
+		r.Require("wildcard_only_probes_blocked", 1000)
+		r.Require("wildcard_only_probes_unblocked", 1000)
+		r.Require("wildcard_only_states_served_initial", 100)
+		r.Require("wildcard_only_states_served_after-plain-removed", 100)
 		// (ii) concurrency / convergence / reload
 		r.Require("concurrent_rounds", int64(r.N(200, 3000)))
 		r.Require("concurrent_ops", 10000)
@@ -176,6 +182,7 @@ func main() {
 		r.Require("interrupt_kill_rename", 1)
 		r.Require("interrupt_error_rename_EIO", 1)
 		r.Require("interrupt_reload_comparisons", 10)
+		r.Require("interrupt_reload_probe_comparisons", 1000)
 	}
 	r.Finish(rule)
 }
